@@ -122,6 +122,7 @@ func runC15(c *Ctx) {
 	ruleClose(c, "R-CLOSE", mods, c15Scope)
 
 	c15Parallelize(c)
+	c02CancelGated(c, "CANCEL-GATED")
 	c15AtomicWriter(c)
 	c15AtomicOption(c)
 	c15GenFlush(c)
